@@ -34,6 +34,7 @@ def run(ck, progs):
         _transfer(ck, P, cfg)
         _parity(ck, P, cfg)
         _node_record_value(ck, P, cfg)
+        _loops(ck, P, cfg)
         rules_cover.check_array_loops(ck, P, "C20.8", "log/stats.c", "stats_tmps", "global_config.n_threads", 3, "thread")
         _reader_writer(ck, P, cfg)
         _names(ck, P, cfg)
@@ -398,6 +399,62 @@ def _node_record_value(ck, P, cfg):
         ck.holds("C20.7", inst, v.where, "the record's gvt field is the value stats_on_gvt was called with", cfg)
     else:
         ck.violated("C20.7", inst, v.where, "the node record's gvt field is %s, not the GVT of the round: the file no longer lists the GVT values" % ("`%s`" % X.show(val) if val is not None and val.k != "ImplicitValueInitExpr" else "left zero"), cfg)
+
+
+def _loops(ck, P, cfg):
+    """Counted loops of the writer whose range the reader relies on."""
+    from .. import rules_cover
+    # (a) one name record per counter kind: the loop over stats_names covers 0 .. STATS_COUNT-1
+    f = P.fn("stats_file_final_write")
+    cnt = P.enum_const("STATS_COUNT")
+    inst = "names-loop"
+    loops = [l for l in f.walk() if l.k == "ForStmt" and any(x.k == "DeclRefExpr" and x.name == "stats_names" for x in l.children[4].walk())]
+    if len(loops) != 1 or cnt is None:
+        ck.inconclusive("C20.8", inst, f.where, "loop over the counter names not recognised", cfg)
+    else:
+        iv = [x for x in loops[0].children[0].walk() if x.k == "VarDecl"]
+        got = rules_cover.for_indices(loops[0], iv[0].name, {}, limit=cnt + 8) if iv else None
+        if got is None:
+            ck.inconclusive("C20.8", inst, loops[0].where, "loop header not evaluable", cfg)
+        elif got == "runaway" or sorted(got) != list(range(cnt)):
+            ck.violated("C20.8", inst, loops[0].where, "the header announces %d counter names but the loop writes %s of them: every later field of the file is read at the wrong offset"
+                        % (cnt, "more than %d" % cnt if got == "runaway" else len(got)), cfg)
+        else:
+            ck.holds("C20.8", inst, loops[0].where, "one name record for each of the %d counter kinds announced" % cnt, cfg)
+    # (b) rank 0 receives the blocks of every other rank 1 .. n_nodes-1
+    f = P.fn("stats_files_receive")
+    inst = "every-other-rank@stats_files_receive"
+    loops = [l for l in f.walk() if l.k == "ForStmt" and l.parent is not None and l.parent.k == "CompoundStmt" and l.parent.parent is None or (l.k == "ForStmt" and any(c.callee == "mpi_blocking_data_rcv" for c in l.children[4].walk() if c.k == "CallExpr") and not any(o is not l and o.k == "ForStmt" and l.is_inside(o) for o in f.walk()))]
+    loops = [l for l in loops if l.k == "ForStmt"]
+    if len(loops) != 1:
+        ck.inconclusive("C20.8", inst, f.where, "loop over the sending ranks not recognised", cfg)
+    else:
+        iv = [x for x in loops[0].children[0].walk() if x.k == "VarDecl"]
+        bad = None
+        unknown = False
+        for n in range(1, 9):
+            got = rules_cover.for_indices(loops[0], iv[0].name, {"n_nodes": n}) if iv else None
+            if got is None:
+                unknown = True
+                break
+            if got == "runaway" or sorted(got) != list(range(1, n)):
+                bad = bad or (n, got)
+        if unknown:
+            ck.inconclusive("C20.8", inst, loops[0].where, "loop header not evaluable", cfg)
+        elif bad:
+            ck.violated("C20.8", inst, loops[0].where, "with %d ranks rank 0 collects the statistics of ranks %s: the file announces %d nodes but holds fewer, and the ranks left out block in their send" % (bad[0], bad[1], bad[0]), cfg)
+        else:
+            ck.holds("C20.8", inst, loops[0].where, "for 1..8 ranks rank 0 collects from every rank 1..n-1", cfg)
+    # (c) each thread opens ITS slot of the temporary-file table
+    f = P.fn("stats_init")
+    inst = "own-slot@stats_init"
+    st = [a for a in f.walk() if a.k == "BinaryOperator" and a.op == "=" and X.strip(a.children[0]).k == "ArraySubscriptExpr" and "stats_tmps" in X.show(a.children[0])]
+    if len(st) != 1:
+        ck.inconclusive("C20.8", inst, f.where, "store into the temporary-file table not recognised", cfg)
+    elif X.show(X.strip(X.strip(st[0].children[0]).children[1])) == "rid":
+        ck.holds("C20.8", inst, st[0].where, "stats_tmps[rid] = the thread's own temporary file", cfg)
+    else:
+        ck.violated("C20.8", inst, st[0].where, "the temporary file is stored in slot `%s`, not in the thread's own slot: the threads share (or never get) a file" % X.show(X.strip(st[0].children[0]).children[1]), cfg)
 
 
 def _rounds(ck, P, cfg):
